@@ -80,7 +80,7 @@ def build_harness(name, vinfo, rc=True, interpose=False, extra='', libs='-lcrypt
     cxx, flags = CXX_FLAGS[variant]
     if fuzzer:
         flags += ' -fsanitize=fuzzer'
-    key = hashlib.sha256(json.dumps([harness_hash(), vinfo['dir'], name, rc, interpose, extra, libs, flags, srcs, 2]).encode()).hexdigest()[:16]
+    key = hashlib.sha256(json.dumps([harness_hash(), vinfo['dir'], name, rc, interpose, extra, libs, flags, srcs, 3]).encode()).hexdigest()[:16]
     hdir = os.path.join(vbuild.BUILD, 'h-%s-%s-%s' % (name, 'rc' if rc else 'norc', key))
     binp = os.path.join(hdir, name)
     import fcntl
@@ -106,7 +106,9 @@ def build_harness(name, vinfo, rc=True, interpose=False, extra='', libs='-lcrypt
         for s in (srcs or [name + '.cpp']):
             cmd.append(os.path.join(HARNESS, s))
         if vinfo.get('lib', '').endswith('.a'):
-            cmd.append(vinfo['lib_ip'] if interpose else vinfo['lib'])
+            # whole-archive: the sanitizer runtimes define weak interceptors for crypt/crypt_r, which would
+            # otherwise keep crypt-static.o from being pulled out of the archive
+            cmd += ['-Wl,--whole-archive', vinfo['lib_ip'] if interpose else vinfo['lib'], '-Wl,--no-whole-archive']
         if rc:
             cmd.append('-lrapidcheck')
         cmd += libs.split()
